@@ -9,6 +9,7 @@ import Mathlib.Algebra.BigOperators.Group.List.Basic
 import Mathlib.Tactic.Ring
 import Mathlib.Tactic.Linarith
 import Mathlib.Tactic.FieldSimp
+import Mathlib.Data.List.Perm.Subperm
 
 set_option linter.unusedSectionVars false
 
@@ -130,6 +131,165 @@ theorem cellOfPt_neg_one_or_valid (g : Geom α) (p : Option (α × α)) :
   cases p with
   | none => exact Or.inl rfl
   | some xy => exact coord2cell_neg_one_or_valid g xy.1 xy.2
+
+/-- a point is accepted only by a grid that has rows and columns (the range test `0 <= nx < ncols`,
+`0 <= ny < nrows` of `c_coord2cell`), whatever the arithmetic -/
+theorem coord2cell_nonneg_dims (g : Geom α) (x y : α) (h : 0 ≤ coord2cell g x y) : 0 < g.nrows ∧ 0 < g.ncols := by
+  unfold coord2cell at h
+  simp only [] at h
+  generalize C07.Trunc.floorToInt ((x - g.xll) / g.csz) = nx at h
+  generalize g.nrows - 1 - C07.Trunc.floorToInt ((y - g.yll) / g.csz) = ny at h
+  unfold cellOfNxNy at h
+  split at h
+  · omega
+  · omega
+
+theorem cellOfPt_nonneg_dims (g : Geom α) (p : Option (α × α)) (h : 0 ≤ cellOfPt g p) :
+    0 < g.nrows ∧ 0 < g.ncols := by
+  cases p with
+  | none =>
+    have : (0 : Int) ≤ -1 := h
+    omega
+  | some xy => exact coord2cell_nonneg_dims g xy.1 xy.2 h
+
+/-- the cells listed by `c_intersect` are distinct -/
+theorem cIntersect_nodup (g : Geom α) (ca : α) (pts : List (Option (α × α))) :
+    (keys (cIntersect g ca pts)).Nodup := by
+  rw [cIntersect_eq]
+  exact nodup_keys_foldl_bump _ _ [] List.nodup_nil
+
+theorem cIntersect_mem_keys (g : Geom α) (ca : α) (pts : List (Option (α × α))) (k : Int) :
+    k ∈ keys (cIntersect g ca pts) ↔ 0 ≤ k ∧ ∃ p ∈ pts, cellOfPt g p = k := by
+  rw [cIntersect_eq, mem_keys_foldl_bump (areafactor g.csz ca) (hits g pts) [] k, mem_hits]
+  simp
+
+theorem cIntersect_valid (g : Geom α) (ca : α) (pts : List (Option (α × α))) (k : Int)
+    (hk : k ∈ keys (cIntersect g ca pts)) : validCell g.nrows g.ncols k = true := by
+  obtain ⟨h0, p, -, rfl⟩ := (cIntersect_mem_keys g ca pts k).1 hk
+  rcases cellOfPt_neg_one_or_valid g p with h | h
+  · omega
+  · exact h
+
+/-- a grid that lists a cell has rows and columns -/
+theorem cIntersect_dims (g : Geom α) (ca : α) (pts : List (Option (α × α))) (k : Int)
+    (hk : k ∈ keys (cIntersect g ca pts)) : 0 < g.nrows ∧ 0 < g.ncols := by
+  obtain ⟨h0, p, -, rfl⟩ := (cIntersect_mem_keys g ca pts k).1 hk
+  exact cellOfPt_nonneg_dims g p h0
+
+/-- the kernel writes at most `nrows*ncols` entries -/
+theorem cIntersect_length (g : Geom α) (ca : α) (pts : List (Option (α × α))) :
+    (cIntersect g ca pts).length ≤ (g.nrows * g.ncols).toNat := by
+  have hnd := cIntersect_nodup g ca pts
+  have hv := cIntersect_valid g ca pts
+  have hlen : (cIntersect g ca pts).length = (keys (cIntersect g ca pts)).length := by simp [keys]
+  rw [hlen]
+  generalize keys (cIntersect g ca pts) = ks at hnd hv
+  have hv' : ∀ k ∈ ks, 0 ≤ k ∧ k < g.nrows * g.ncols := fun k hk => validCell_iff.1 (hv k hk)
+  generalize g.nrows * g.ncols = n at hv'
+  have h1 : (ks.map Int.toNat).Nodup := by
+    apply List.Nodup.map_on _ hnd
+    intro a ha b hb hab
+    have := hv' a ha
+    have := hv' b hb
+    omega
+  have h2 : ks.map Int.toNat ⊆ List.range n.toNat := by
+    intro x hx
+    obtain ⟨k, hk, rfl⟩ := List.mem_map.1 hx
+    have := hv' k hk
+    rw [List.mem_range]
+    omega
+  have := (h1.subperm h2).length_le
+  simpa using this
+
+/-! #### the weight of a cell as the loop computes it: `af`, then `+= af`, in this order -/
+
+/-- weight recorded for cell `k` (first match), `none` when the cell is not listed -/
+def wLook : List (Int × α) → Int → Option α
+  | [], _ => none
+  | (k', w) :: t, k => if k' = k then some w else wLook t k
+
+/-- `w += af`, `n` times -/
+def addRep (af : α) (w : α) : Nat → α
+  | 0 => w
+  | n + 1 => addRep af w n + af
+
+theorem addRep_succ' (af w : α) (n : Nat) : addRep af w (n + 1) = addRep af (w + af) n := by
+  induction n with
+  | zero => rfl
+  | succ n ih => rw [addRep, ih]; rfl
+
+theorem repAdd_eq_addRep (af : α) (n : Nat) : repAdd af n = addRep af af n := by
+  induction n with
+  | zero => rfl
+  | succ n ih => rw [repAdd, ih]; rfl
+
+theorem wLook_bump (af : α) (c : Int) (l : List (Int × α)) (k : Int) :
+    wLook (bump af c l) k =
+      if k = c then (match wLook l k with | none => some af | some w => some (w + af)) else wLook l k := by
+  induction l with
+  | nil =>
+    simp only [bump, wLook]
+    by_cases h : c = k
+    · simp [h]
+    · have : ¬ k = c := fun e => h e.symm
+      simp [h, this]
+  | cons kw t ih =>
+    obtain ⟨k', w⟩ := kw
+    unfold bump
+    by_cases h : k' = c
+    · subst h
+      simp only [if_true, wLook]
+      by_cases hk : k' = k
+      · simp [hk]
+      · have : ¬ k = k' := fun e => hk e.symm
+        simp [hk, this]
+    · simp only [h, if_false, wLook]
+      by_cases hk : k' = k
+      · have : ¬ k = c := by rw [← hk]; exact h
+        simp [hk, this]
+      · simp only [hk, if_false]; exact ih
+
+theorem wLook_foldl_bump (af : α) (cs : List Int) (acc : List (Int × α)) (k : Int) :
+    wLook (cs.foldl (fun acc c => bump af c acc) acc) k =
+      match cs.count k, wLook acc k with
+      | 0, r => r
+      | n + 1, none => some (repAdd af n)
+      | n + 1, some w => some (addRep af w (n + 1)) := by
+  induction cs generalizing acc with
+  | nil => simp
+  | cons c t ih =>
+    rw [List.foldl_cons, ih, wLook_bump, List.count_cons]
+    by_cases h : k = c
+    · subst h
+      simp only [beq_self_eq_true, if_true]
+      cases hl : wLook acc k with
+      | none =>
+        simp only []
+        cases hn : List.count k t with
+        | zero => simp [repAdd]
+        | succ n => simp [repAdd_eq_addRep, addRep_succ']
+      | some w =>
+        simp only []
+        cases hn : List.count k t with
+        | zero => simp [addRep]
+        | succ n => simp [addRep_succ']
+    · have : ¬ c = k := fun e => h e.symm
+      simp [h, this]
+
+theorem wLook_of_mem {l : List (Int × α)} (h : (keys l).Nodup) {k : Int} {w : α} (hm : (k, w) ∈ l) :
+    wLook l k = some w := by
+  induction l with
+  | nil => cases hm
+  | cons kw t ih =>
+    obtain ⟨k', w'⟩ := kw
+    rw [keys_cons, List.nodup_cons] at h
+    rcases List.mem_cons.1 hm with e | hm'
+    · cases e; simp [wLook]
+    · have hne : k' ≠ k := by
+        rintro rfl
+        exact h.1 (List.mem_map.2 ⟨(k', w), hm', rfl⟩)
+      simp only [wLook, hne, if_false]
+      exact ih h.2 hm'
 
 end Generic
 
@@ -620,6 +780,62 @@ theorem AreaGrid.at_of_data {a : AreaGrid α} {nr nc : Nat} {f : Int → Int →
   rw [hd]
   simp [hi, hj]
 
+/-- the weight array passes the shape guards of the `Grid.data` setter -/
+theorem setData_grid {β : Type} {nr nc : Int} (hr : 0 ≤ nr) (hc : 0 ≤ nc) (f : Nat → Nat → β) :
+    setData nr nc ((List.range nr.toNat).map fun i => (List.range nc.toNat).map fun j => f i j) =
+      .ok ((List.range nr.toNat).map fun i => (List.range nc.toNat).map fun j => f i j) := by
+  unfold setData
+  rw [if_neg, if_neg]
+  · simp only [List.any_eq_true, List.mem_map, List.mem_range, decide_eq_true_eq, not_exists, not_and]
+    rintro r ⟨i, -, rfl⟩
+    simp only [List.length_map, List.length_range, ne_eq, not_not]
+    omega
+  · simp only [List.length_map, List.length_range, ne_eq, not_not]
+    omega
+
+theorem listMin_le_listMax {β : Type} [LinearOrder β] (x : β) (xs : List β) : listMin x xs ≤ listMax x xs :=
+  le_trans (listMin_spec x xs).2.1 (listMax_spec x xs).2.1
+
+/-- what `Catchment.intersect` builds from a non-empty kernel listing -/
+def areaOf (coarse : Geom α) (kw0 : Int × α) (rest : List (Int × α)) : AreaGrid α :=
+  let rowStart := listMin (prow coarse kw0.1) (rest.map fun kw => prow coarse kw.1)
+  let rowEnd := listMax (prow coarse kw0.1) (rest.map fun kw => prow coarse kw.1)
+  let colStart := listMin (pcol coarse kw0.1) (rest.map fun kw => pcol coarse kw.1)
+  let colEnd := listMax (pcol coarse kw0.1) (rest.map fun kw => pcol coarse kw.1)
+  { keys := (kw0 :: rest).map (·.1), weights := (kw0 :: rest).map (·.2),
+    rowStart, rowEnd, colStart, colEnd,
+    xll := listMin (getcoord coarse kw0.1).1 (rest.map fun kw => (getcoord coarse kw.1).1) - coarse.csz / (1 + 1),
+    yll := listMin (getcoord coarse kw0.1).2 (rest.map fun kw => (getcoord coarse kw.1).2) - coarse.csz / (1 + 1),
+    nrows := rowEnd - rowStart + 1, ncols := colEnd - colStart + 1,
+    data := (List.range (rowEnd - rowStart + 1).toNat).map fun (i : Nat) =>
+      (List.range (colEnd - colStart + 1).toNat).map fun (j : Nat) =>
+        scatterFn coarse.nrows coarse.ncols rowStart colStart (kw0 :: rest) (i : Int) (j : Int),
+    csz := coarse.csz, parent := coarse }
+
+/-- `Catchment.intersect` with the guards that never fire removed: the kernel cannot overrun the buffers
+(`cIntersect_length`) and the weight array always has the shape of the grid it is assigned to -/
+theorem intersect_unfold (coarse fine : Geom α) (cells : List Int) :
+    intersect coarse fine cells =
+      if coarse.nrows * coarse.ncols < 0 then .error .badBuffer
+      else match cIntersect coarse fine.csz (cells.map (cell2coord fine)) with
+        | [] => .error .noOverlap
+        | kw0 :: rest => .ok (areaOf coarse kw0 rest) := by
+  by_cases hneg : coarse.nrows * coarse.ncols < 0
+  · simp [intersect, hneg]
+  · have hlen := cIntersect_length coarse fine.csz (cells.map (cell2coord fine))
+    unfold intersect
+    simp only [hneg, if_false, not_lt.2 hlen]
+    cases hk : cIntersect coarse fine.csz (cells.map (cell2coord fine)) with
+    | nil => rfl
+    | cons kw0 rest =>
+      simp only []
+      have hr := listMin_le_listMax (cell2rowcol coarse.nrows coarse.ncols kw0.1).1
+        (rest.map fun kw => (cell2rowcol coarse.nrows coarse.ncols kw.1).1)
+      have hc := listMin_le_listMax (cell2rowcol coarse.nrows coarse.ncols kw0.1).2
+        (rest.map fun kw => (cell2rowcol coarse.nrows coarse.ncols kw.1).2)
+      rw [setData_grid (by omega) (by omega)]
+      rfl
+
 theorem intersect_eq_ok {coarse fine : Geom α} {cells : List Int} {a : AreaGrid α}
     (h : intersect coarse fine cells = .ok a) :
     ∃ kw0 rest, cIntersect coarse fine.csz (cells.map (cell2coord fine)) = kw0 :: rest ∧
@@ -633,26 +849,71 @@ theorem intersect_eq_ok {coarse fine : Geom α} {cells : List Int} {a : AreaGrid
       a.nrows = a.rowEnd - a.rowStart + 1 ∧ a.ncols = a.colEnd - a.colStart + 1 ∧
       a.data = (List.range a.nrows.toNat).map fun (i : Nat) => (List.range a.ncols.toNat).map fun (j : Nat) =>
         scatterFn coarse.nrows coarse.ncols a.rowStart a.colStart (kw0 :: rest) (i : Int) (j : Int) := by
-  unfold intersect at h
-  simp only [] at h
+  rw [intersect_unfold] at h
   split at h
   · cases h
-  · rename_i kw0 rest heq
-    injection h with h
-    subst h
-    refine ⟨kw0, rest, heq, ?_, ?_, ?_, ?_, ?_, ?_, ?_, ?_, ?_, ?_, ?_⟩
-    all_goals first | rfl | (simp only [heq])
+  · split at h
+    · cases h
+    · rename_i kw0 rest heq
+      injection h with h
+      subst h
+      exact ⟨kw0, rest, heq, rfl, rfl, rfl, rfl, rfl, rfl, rfl, rfl, rfl, rfl, rfl⟩
+
+/-- the cell size and the parent attributes of the weight grid are those of the intersected grid -/
+theorem intersect_eq_ok_parent {coarse fine : Geom α} {cells : List Int} {a : AreaGrid α}
+    (h : intersect coarse fine cells = .ok a) : a.csz = coarse.csz ∧ a.parent = coarse := by
+  rw [intersect_unfold] at h
+  split at h
+  · cases h
+  · split at h
+    · cases h
+    · injection h with h
+      subst h
+      exact ⟨rfl, rfl⟩
 
 theorem intersect_eq_error {coarse fine : Geom α} {cells : List Int} {e : Err}
     (h : intersect coarse fine cells = .error e) :
-    e = .noOverlap ∧ cIntersect coarse fine.csz (cells.map (cell2coord fine)) = [] := by
-  unfold intersect at h
-  simp only [] at h
+    (e = .badBuffer ∧ coarse.nrows * coarse.ncols < 0) ∨
+    (e = .noOverlap ∧ 0 ≤ coarse.nrows * coarse.ncols ∧
+      cIntersect coarse fine.csz (cells.map (cell2coord fine)) = []) := by
+  rw [intersect_unfold] at h
   split at h
-  · rename_i heq
+  · rename_i hneg
     injection h with h
-    exact ⟨h.symm, heq⟩
-  · cases h
+    exact Or.inl ⟨h.symm, hneg⟩
+  · rename_i hneg
+    split at h
+    · rename_i heq
+      injection h with h
+      exact Or.inr ⟨h.symm, not_lt.1 hneg, heq⟩
+    · cases h
+
+/-! ### the executable statement of the property (`Model/C16.lean`, section Spec) says what the theorems say -/
+
+theorem inFootprintB_iff (g : Geom α) (c : Int) (x y : α) :
+    inFootprintB g c x y = true ↔ InFootprint g c x y := by
+  unfold inFootprintB InFootprint cellLeft cellRight cellBottom cellTop rowUp
+  simp only [ofInt_eq, Bool.and_eq_true, decide_eq_true_eq, and_assoc]
+
+theorem inExtentB_iff (g : Geom α) (x y : α) : inExtentB g x y = true ↔ InExtent g x y := by
+  unfold inExtentB InExtent
+  simp only [ofInt_eq, Bool.and_eq_true, decide_eq_true_eq, and_assoc]
+
+theorem specCount_eq (coarse fine : Geom α) (cells : List Int) (k : Int) :
+    specCount coarse fine cells k = cells.countP fun c => validCell fine.nrows fine.ncols c &&
+      decide (InFootprint coarse k (getcoord fine c).1 (getcoord fine c).2) := by
+  unfold specCount
+  apply List.countP_congr
+  intro c _
+  simp only [Bool.and_eq_true, decide_eq_true_eq, inFootprintB_iff]
+
+theorem specInside_eq (coarse fine : Geom α) (cells : List Int) :
+    specInside coarse fine cells = cells.countP fun c => validCell fine.nrows fine.ncols c &&
+      decide (InExtent coarse (getcoord fine c).1 (getcoord fine c).2) := by
+  unfold specInside
+  apply List.countP_congr
+  intro c _
+  simp only [Bool.and_eq_true, decide_eq_true_eq, inExtentB_iff]
 
 end Unfold
 
